@@ -40,6 +40,20 @@ const (
 )
 
 var phases = []string{"hdr", "body-half", "up-hold", "resp-half", "idle"}
+
+// client-stall is the downstream side of "response half written": the proxy has written a part of the response and
+// cannot write the rest because the client does not take it (HTTP/2: no flow-control credit; HTTP/1.1: socket buffers
+// full). It is not drawn by genCase (that would change what every recorded seed means); the strata place it.
+const phaseStall = "client-stall"
+
+// stallRespSize is the size of the designated response in a client-stall case: beyond the client's HTTP/2 stream window
+// (4 MiB) resp. beyond what the socket buffers between the proxy and a client with a 16 KiB receive buffer hold.
+func stallRespSize(cs Case) int {
+	if cs.Proto == "Http2" {
+		return 4<<20 + 1 + cs.DResp*8
+	}
+	return 12<<20 + cs.DResp
+}
 var protos = []string{"Http1", "Http2", "bolt"}
 
 // Every case runs ONE mosn with a listener, router and cluster (own scripted upstream) per protocol and
@@ -787,6 +801,10 @@ func execute(cs Case) (o *outcome, r *run, infra string) {
 	r.desig = newPlan(fmt.Sprintf("k%d-designated", r.no), cs.DReq, cs.DResp, 0)
 	if cs.Phase == "up-hold" || cs.Phase == "resp-half" {
 		r.desig.HoldAt = cs.Phase
+	}
+	if cs.Phase == phaseStall {
+		// the hold is at the client: it reports the phase (reached) and reads on when released
+		r.desig.HoldAt, r.desig.RespSize = phaseStall, stallRespSize(cs)
 	}
 	r.ups[cs.Proto].add(r.desig)
 	if cs.Signal == "SIGTERM" && cs.Holder != "" {
